@@ -699,9 +699,15 @@ class ThreadingShim:
 class SimFuture:
     def __init__(self, sim: Sim) -> None:
         self.sim = sim
+        # deterministic hash: optuna keeps futures in a set and iterates over it
+        sim._nfutures = getattr(sim, "_nfutures", 0) + 1
+        self._hash = sim._nfutures
         self._done = False
         self._result: Any = None
         self._exc: BaseException | None = None
+
+    def __hash__(self) -> int:
+        return self._hash
 
     def done(self) -> bool:
         return self._done
